@@ -77,4 +77,6 @@ type ReplayFile struct {
 	// BySeed: the file replays by regenerating the run from its seed (property, tier, seed) and executing it under
 	// the strategy the seed selects, instead of following Choices. Used when a recorded schedule cannot be followed.
 	BySeed bool `json:"by_seed,omitempty"`
+	// ReplayNote is set when the violation did not reproduce in every confirmation attempt.
+	ReplayNote string `json:"replay_note,omitempty"`
 }
